@@ -4,17 +4,30 @@ def obligations(tier):
     to = 2400 if T else 280
     obs = []
     REPP = ["callback_chunkedheader:stub_chunkhdr", "get_body_gotclen:stub_gotclen", "callback_read_toeof:stub_toeof", "callback_read_header:stub_readheader", "findeol:stub_findeol"]
-    SHAPES = [("status13", [13]), ("status13-h4", [13, 4]), ("status15-h3-h6", [15, 3, 6]), ("status13-clen17", [13, 17]), ("status13-te26", [13, 26])]
-    if T: SHAPES += [("status13-te26-clen17", [13, 26, 17]), ("status13-clen17-te26", [13, 17, 26]), ("status13-h5-h5-h5", [13, 5, 5, 5]), ("status20-clen19", [20, 19])]
+    SHAPES = [("status13", [13]), ("status13-h4", [13, 4])]
+    if T: SHAPES += [("status13-clen17", [13, 17]), ("status15-h3-h6", [15, 3, 6]), ("status13-te26", [13, 26]), ("status13-te26-clen17", [13, 26, 17]), ("status13-clen17-te26", [13, 17, 26]), ("status13-h5-h5-h5", [13, 5, 5, 5]), ("status20-clen19", [20, 19])]
     for nm_, sh in SHAPES:
         n = sum(sh) + 2 * len(sh) + 2
-        obs.append(dict(name="header-decode-exact-" + nm_, harness="../C08/hdr.c", entry="h_header", defs=["N=%d" % n, "EXTRA=2", "EXACT", "SHAPE={%s-1}" % "".join("%d," % x for x in sh)], replace=REPP, unwind=max(n + 8, 20), backends=["cadical", "kissat"], timeout=max(to, 600),
+        obs.append(dict(name="header-decode-exact-" + nm_, harness="../C08/hdr.c", entry="h_header", defs=["N=%d" % n, "EXTRA=2", "EXACT", "SHAPE={%s-1}" % "".join("%d," % x for x in sh)], replace=REPP, unwind=max(n + 8, 20), backends=["cadical", "kissat"], timeout=max(to, 900),
                         claim="for every WELL-FORMED header block with line lengths %s (status line HTTP/1.x SP 3DIGIT SP reason; fields name ':' OWS value OWS): the response is accepted, status, number of fields, every field name and OWS-trimmed value (in order) equal an independent reference parse, and the framing decision follows HEAD/204/304 > Transfer-Encoding: chunked > Content-Length > read-to-EOF; 1xx blocks are discarded and the scan restarts" % sh,
                         bounds="line lengths %s (%d bytes), all byte values subject to well-formedness" % (sh, n), stubs=["findeol -> fixed line structure", "sscanf/strcspn/strspn/strstr -> C models validated against glibc", "body stages -> recording stubs"]))
     # scan stage and body stages contribute the segmentation / body-exactness parts
     for n in ([0, 3, 4, 5, 8, 11] if not T else list(range(0, 15))):
         obs.append(dict(name="header-scan-stage-n%d" % n, harness="../C08/hdr.c", entry="h_scan", defs=["NSCAN=%d" % n], replace=["gotheaders:stub_gotheaders"], unwind=n + 8, backends=["cadical"], timeout=to,
                         claim="whatever the segmentation (any number of buffered bytes, any valid scan position): the block up to the FIRST blank line is handed to the parser, never less, never more", bounds="%d buffered bytes" % n, stubs=["gotheaders -> recording stub"]))
+    nm = 9 if T else 6
+    BC = dict(harness="../C08/body.c", unwind=40, unwindset=["findeol#0:%d" % (nm + 2), "vhs_scan#0:%d" % (nm + 3), "vhs_scan#1:%d" % (nm + 3)], backends=["cadical"], timeout=to,
+              stubs=["netbuf_read_peek -> exact-size object", "strtoumax -> C11 model", "successor callbacks -> hand-over stubs"], bounds="<= %d buffered bytes, body so far <= 8 bytes, limits symbolic" % nm)
+    obs.append(dict(name="body-data-exact", entry="h_readdata_exact", defs=["NMAX=%d" % nm, "EXACT"], replace=["callback_chunkedheader:stub_chunkhdr"],
+                    claim="callback_readdata: exactly min(buffered, remaining) bytes are appended to the body in order; Content-Length body complete => callback with exactly those bytes; chunk complete => CRLF stripped and the next chunk-size line is read; otherwise the remainder is awaited", **BC))
+    obs.append(dict(name="chunk-size-line-exact", entry="h_chunkhdr_exact", defs=["NMAX=%d" % nm, "EXACT"], replace=["callback_readdata:stub_readdata"],
+                    claim="callback_chunkedheader on a well-formed chunk-size line (1-2 hex digits, optional extension, CRLF): size 0 ends the body; otherwise exactly size+2 bytes are requested and exactly the line is consumed (extensions ignored)", **BC))
+    REQ = [("get-1hdr-body2", dict(LM=3, LP=1, NH=1, LN0=1, LV0=1, LN1=1, LV1=0, LB=2)), ("head-0hdr-nobody", dict(LM=4, LP=2, NH=0, LN0=1, LV0=1, LN1=1, LV1=0, LB=0)),
+           ("post-2hdr-body3", dict(LM=4, LP=3, NH=2, LN0=2, LV0=0, LN1=3, LV1=2, LB=3)), ("m0-p0", dict(LM=0, LP=0, NH=1, LN0=0, LV0=0, LN1=1, LV1=0, LB=1))]
+    for nm_, d in REQ:
+        obs.append(dict(name="request-bytes-" + nm_, harness="req.c", entry="h_request", defs=["%s=%d" % kv for kv in d.items()], replace=["callback_read_header:stub_readheader"], unwind=270, backends=["cadical"], timeout=to, replay="model",
+                        claim="http_request2 + callback_connected: the bytes handed to the writer are exactly method SP path SP HTTP/1.1 CRLF (name: value CRLF)* CRLF and then the body; HEAD is recognised", bounds="string lengths %s (contents symbolic, all byte values)" % d,
+                        stubs=["network_connect/netbuf_* -> recording models", "strlen/stpcpy/strcmp -> length from object size", "callback_read_header -> stub"]))
     return obs
 SELFTESTS = [dict(name="str-models-vs-glibc", srcs=["/verif/models/selftest_str.c"], cflags=["-I/verif/models"], what="strcspn/strspn/strstr/stpcpy/sscanf(HTTP status line) models equal glibc on 2,000,000 strings")]
 TRUSTED = ["CBMC 6.11 C semantics", "cadical", "the reference header parser in harness/C08/hdr.c (ref_parse)", "C models of sscanf/strcspn/strspn/strstr"]
